@@ -12,8 +12,23 @@ import (
 )
 
 func (e *Engine) eventGo(st *State, fr *Frame, x *ssa.Go)                                  {}
-func (e *Engine) eventRecv(st *State, fr *Frame, x *ssa.UnOp, ch Val)                      {}
-func (e *Engine) eventSelect(st *State, fr *Frame, x *ssa.Select, idx int)                 {}
+func (e *Engine) markDone(st *State, ch Val) {
+	if c, ok := st.doneChan[ch.S]; ok {
+		if st.ctxDone == nil {
+			st.ctxDone = map[string]bool{}
+		}
+		st.ctxDone[c] = true
+	}
+}
+
+func (e *Engine) eventRecv(st *State, fr *Frame, x *ssa.UnOp, ch Val) { e.markDone(st, ch) }
+
+func (e *Engine) eventSelect(st *State, fr *Frame, x *ssa.Select, idx int) {
+	s := x.States[idx]
+	if s.Dir == types.RecvOnly {
+		e.markDone(st, e.val(st, fr, s.Chan))
+	}
+}
 func (e *Engine) eventClose(st *State, fr *Frame, ch Val, pos token.Pos, ins ssa.Instruction) {}
 
 // eventSend: "on-send <chan expr>(v)" clauses of the function that contains the send.
@@ -303,7 +318,7 @@ func (e *Engine) callIfaceContract(st *State, fr *Frame, c *ssa.CallCommon, ct *
 	return res
 }
 
-var builtinLemmas = map[string]bool{"subsetCardEq": true}
+var builtinLemmas = map[string]bool{"subsetCardEq": true, "distinctCard": true}
 
 // specBuiltin: functions available in contracts beyond Go's.
 func (e *Engine) specBuiltin(env *Env, name string, ex *SExpr) (Val, bool) {
@@ -311,14 +326,38 @@ func (e *Engine) specBuiltin(env *Env, name string, ex *SExpr) (Val, bool) {
 	switch name {
 	case "sha256":
 		// sha256(b): the SHA-256 digest of the contents of b as a string (uninterpreted, deterministic)
-		if env.quant > 0 {
-			env.errf("sha256() is not available inside quantifiers")
-			return Val{}, false
-		}
 		b := arg(0)
-		c := e.contentOf(env.st, b)
+		c := env.content(b)
 		reg.declareFun("lib!digest", []string{"Str", "Str"}, "Str")
 		return Val{S: fmt.Sprintf("(lib!digest %s %s)", strLit("sha256"), c), T: tString}, true
+	case "was":
+		// was(k, m): the current value k was a key of map m in the pre-state
+		if !env.hasOld {
+			env.errf("was() needs a pre-state")
+			return Val{}, false
+		}
+		k := arg(0)
+		n := env.child()
+		n.snap = env.oldSnap
+		if n.snap == nil {
+			n.snap = map[string]string{}
+		}
+		m := n.eval(ex.Args[1])
+		mt, ok := m.T.Underlying().(*types.Map)
+		if !ok {
+			env.errf("was() needs a map")
+			return Val{}, false
+		}
+		dn, _, ds, _, _ := mapHeapNames(mt)
+		k = env.coerce(k, mt.Key())
+		return Val{S: and(not(eq(m.S, "0")), sel(sel(n.heap(dn, ds), m.S), k.S)), T: tBool}, true
+	case "done":
+		// done(ctx): a receive from ctx.Done() has succeeded on this path
+		c := arg(0)
+		if env.st != nil && env.st.ctxDone[c.S] {
+			return Val{S: "true", T: tBool}, true
+		}
+		return Val{S: "false", T: tBool}, true
 	case "fresh":
 		// fresh(x): the reference x was allocated during the call (it is above the allocation frontier of the pre-state)
 		if !env.hasOld {
@@ -429,6 +468,22 @@ func (e *Engine) specBuiltin(env *Env, name string, ex *SExpr) (Val, bool) {
 			return Val{S: fmt.Sprintf("(%s %s)", card, s.S), T: tInt}, true
 		}
 		return Val{}, false
+	case "distinctCard":
+		// valid: a list of pairwise distinct elements has as many distinct elements as its length
+		// (Finset.card_image_of_injective); premise: pairwise distinct, conclusion: card(elems(s, len(s))) == len(s)
+		sv := arg(0)
+		slt, ok := sv.T.Underlying().(*types.Slice)
+		if !ok || sortOf(slt.Elem()) != "Int" || env.st == nil {
+			env.errf("distinctCard needs a slice of integers")
+			return Val{}, false
+		}
+		hn, hs := elemHeapName(slt.Elem())
+		row := sel(env.heap(hn, hs), slRef(sv.S))
+		off, ln := slOff(sv.S), slLen(sv.S)
+		el, _ := e.specBuiltin(env, "elems", &SExpr{Op: "call", Name: "elems", Args: []*SExpr{ex.Args[0], {Op: "call", Name: "len", Args: []*SExpr{ex.Args[0]}}}})
+		e.assumptions["finite-set fact (Finset.card_image_of_injective): pairwise distinct elements imply card(elems(s)) = len(s), used as a lemma whose premise is proved at the call"] = true
+		env.lemmaPrem = append(env.lemmaPrem, fmt.Sprintf("(forall ((a!d Int) (b!d Int)) (=> (and (<= 0 a!d) (< a!d b!d) (< b!d %s)) (not (= (select %s %s) (select %s %s)))))", ln, row, ix(off, "a!d"), row, ix(off, "b!d")))
+		return Val{S: fmt.Sprintf("(= (%s %s) %s)", cardFun("Int"), el.S, ln), T: tBool}, true
 	case "subsetCardEq":
 		// valid for finite sets: A subset of B and |A| >= |B|  ==>  A == B   (Finset.eq_of_subset_of_card_le)
 		a, b := arg(0), arg(1)
